@@ -24,7 +24,8 @@ LEVEL_TEXT = ("3-6 agents share one process (as in thread mode): each has a real
               "hosts == agents that accepted (harness ledger); and at every acceptance (wrapped _accept_replica) the "
               "acceptor's capacity minus the footprint of its own computations covers the new footprint plus the "
               "largest total footprint of the replicas it already holds for any k-1 owners, recomputed from the "
-              "ledger. Sampling of deployments x schedules.")
+              "ledger; agents may host a computation the replication computation was never told about. Sampling of "
+              "deployments x schedules.")
 LEVEL_NOTE = ("Trusted: SimNet's per-channel FIFO model, the ledger arithmetic in this file. Route tables are symmetric "
               "(the protocol adds route(a,b) on requests and subtracts route(b,a) on answers and asserts spent >= 0; "
               "the YAML loader only produces symmetric tables). Messages are passed by reference, as the in-process "
